@@ -518,6 +518,8 @@ def gen_mix(rng):
             nd["sched"] = rand_sched(rng, rng.choice([0, 0, 1, 2, 3]))
             if rng.random() < 0.2:
                 nd["spf"] = rng.choice([1, 2])
+            if multi and rng.random() < 0.3:
+                nd["pp"] = rng.choice([1, 2, 3])
         elif r < 0.4:
             m = rng.randint(1, 3)
             slots, t = [], 0
@@ -552,6 +554,13 @@ def gen_mix(rng):
             nd["bk"] = [[rng.choice([0, 1, 2, 4]) for _ in range(rng.randint(1, 3))] if rng.random() < 0.5 else [] for _ in range(K)]
     if rng.random() < 0.3:
         sc["tracker"] = rng.choice(["system", "node", "naive", "nodeclass", "matrix"])
+    if N >= 2 and rng.random() < 0.25:
+        # join-shortest-queue / load-balancing routing out of node 1 (the rest leaves or routes on)
+        dests = list(range(2, N + 1)) + ([1] if rng.random() < 0.3 else [])
+        routers = [{"t": rng.choice(["jsq", "lb"]), "dests": dests, "tie": rng.choice(["random", "order"])}]
+        for n in range(1, N):
+            routers.append(rng.choice([{"t": "leave"}, {"t": "prob", "dests": [1], "probs": [rng.choice([0, 1, 2])]}]))
+        sc["route"] = [{"kind": "nr", "routers": copy.deepcopy(routers)} for _ in range(K)]
     for n in range(N):
         for k in range(K):
             sc["svcS"][n][k] = samples(rng, 1, 6, 3)
